@@ -169,11 +169,25 @@ def rule_cache(ctx, rid='C12.affine'):
                   'current beat through the map from the caller\'s logical time (in nrt nothing writes _beats, after `clock.beats = x` it is stale)')
     ci = tc(ctx)
     n = 0
+    # the rt loop and the private helpers that only it calls (a loop body split into methods is still the loop)
+    callers = {}
+    for mname, mf in ci.methods.items():
+        for c in U.calls(mf.node):
+            if U.is_self_attr(c.func) and c.func.attr in ci.methods:
+                callers.setdefault(c.func.attr, set()).add(mname)
+    loop_only = {'_run'}
+    grew = True
+    while grew:
+        grew = False
+        for mname, who in callers.items():
+            if mname not in loop_only and mname.startswith('_') and who and who <= loop_only:
+                loop_only.add(mname)
+                grew = True
     for name, f in sorted({**ci.methods, **{k + '.setter': v for k, v in ci.setters.items()},
                            **{k + '.getter': v for k, v in getattr(ci, 'properties', {}).items()}}.items()):
         reads = [x for x in walk_local(f.node) if isinstance(x, ast.Attribute) and U.is_self_attr(x, '_beats') and isinstance(x.ctx, ast.Load)]
         n += 1
-        if name.split('.')[0] == '_run':
+        if name.split('.')[0] in loop_only:
             continue
         ctx.ob(rid, f'{ci.fq}.{name}:reads-cache', not reads,
                f'TempoClock.{name} reads self._beats, the beat of the last task the rt thread performed: stale in nrt, after `clock.beats = x`, and '
@@ -462,6 +476,10 @@ MUTANTS = [
 REPAIRS = []
 
 EQUIV = [
+    dict(name='the rt loop reads its cached beat through a private helper that only _run calls', rule='equiv',
+         edits=[('sc3/base/clock.py', "                        _libsc3.main._update_logical_time(\n                            self.beats2secs(self._beats))\n",
+                 "                        _libsc3.main._update_logical_time(\n                            self._performing_secs())\n"),
+                ('sc3/base/clock.py', "    def beats2secs(self, beats):", "    def _performing_secs(self):\n        return self.beats2secs(self._beats)\n\n    def beats2secs(self, beats):")]),
     dict(name='tempo setter delegates its notify to a helper', file='sc3/base/clock.py',
          old="        # en tempo_\n        mdl.NotificationCenter.notify(self, 'tempo')\n        if self.mode == _libsc3.main.NRT_MODE:\n            _libsc3.main._clock_scheduler.rekey(self)\n        else:\n            with self._sched_cond:\n                self._sched_cond.notify()  # NOTE: is notify_one in C++.\n\n    def etempo",
          new="        # en tempo_\n        mdl.NotificationCenter.notify(self, 'tempo')\n        self._map_changed()\n\n    def _map_changed(self):\n        if self.mode == _libsc3.main.NRT_MODE:\n            _libsc3.main._clock_scheduler.rekey(self)\n        else:\n            with self._sched_cond:\n                self._sched_cond.notify()  # NOTE: is notify_one in C++.\n\n    def etempo"),
